@@ -67,6 +67,7 @@ const (
 	TgChild Target = iota
 	TgPrecompile
 	TgCodeless
+	TgSelf // CALL to the frame's own contract with empty calldata (the frame's code stops at once when called so)
 )
 
 type Frame struct {
@@ -136,6 +137,8 @@ func (f *Frame) String() string {
 			out += ")->precompile "
 		case TgCodeless:
 			out += ")->codeless "
+		case TgSelf:
+			out += ")->self "
 		}
 	}
 	if f.Post != ENone {
@@ -146,6 +149,10 @@ func (f *Frame) String() string {
 
 // GenFrame resolves one frame (and its descendants) through the explorer.
 func GenFrame(c *mc.Ctx, o *GenOpts, depth int, next *int) *Frame {
+	return genFrame(c, o, depth, next, true)
+}
+
+func genFrame(c *mc.Ctx, o *GenOpts, depth int, next *int, ownCtx bool) *Frame {
 	f := &Frame{ID: *next}
 	*next++
 	pre := o.PreEffects
@@ -174,9 +181,15 @@ func GenFrame(c *mc.Ctx, o *GenOpts, depth int, next *int) *Frame {
 			// no room for another frame: fall back to a code-less target (or an empty init code for creates)
 			tg = TgCodeless
 		}
+		if tg == TgSelf && (!ownCtx || cl.Kind != KCall) {
+			tg = TgCodeless
+		}
 		cl.Target = tg
+		if tg == TgSelf {
+			cl.InLen = 0
+		}
 		if tg == TgChild {
-			cl.Child = GenFrame(c, o, depth+1, next)
+			cl.Child = genFrame(c, o, depth+1, next, cl.Kind == KCall || cl.Kind == KStaticCall)
 		}
 		f.Call = cl
 	}
@@ -293,6 +306,10 @@ func emitEffect(p *asm.P, e Effect, id, pos int) {
 func compileFrame(f *Frame, fork world.Fork, static bool, depth int) []byte {
 	p := asm.New()
 	p.Op(asm.JUMPDEST)
+	if f.Call != nil && f.Call.Target == TgSelf {
+		// called with empty calldata (by itself) the frame stops at once
+		p.Op(asm.CALLDATASIZE).Op(0x61, 0, 7).Op(asm.JUMPI, asm.STOP, asm.JUMPDEST)
+	}
 	emitEffect(p, f.Pre, f.ID, 1)
 	var initCode []byte
 	patchAt := -1
@@ -328,6 +345,8 @@ func compileFrame(f *Frame, fork world.Fork, static bool, depth int) []byte {
 				to = Precompile
 			case TgCodeless:
 				to = Codeless
+			case TgSelf:
+				to = FrameAddr(f.ID)
 			}
 			p.Push(32).Push(outOff).Push(uint64(c.InLen)).Push(0)
 			if c.Kind == KCall || c.Kind == KCallCode {
